@@ -57,7 +57,10 @@ def child_prog(shape):
     return ['send', 'stable'] + ['send', 'stable'] * j
 
 
-def parent_chart(childxml, childfile, content, fwd, finalize, invid='inv', nested=None):
+def parent_chart(childxml, childfile, content, fwd, finalize, invid='inv', nested=None, poke=False):
+    # poke: the invoking state raises an event on entry that a target-less transition consumes -- the macrostep in which the
+    # state becomes active then ENDS with a microstep that changes nothing (no exit set, no entry set); the invocation
+    # still has to start at the end of that macrostep
     inv = ['<invoke id="%s" type="scxml"' % invid]
     if fwd == 'auto':
         inv.append(' autoforward="true"')
@@ -70,8 +73,8 @@ def parent_chart(childxml, childfile, content, fwd, finalize, invid='inv', neste
     inv.append('</invoke>')
     send = '<log label="ps"/><send target="#_%s" event="go"/>' % invid if fwd == 'send' else ''
     return ('<scxml %s initial="s0">'
-            '<state id="s0" initial="s01">%s'
-            '<state id="s01">'
+            '<state id="s0" initial="s01">%s' + ('<onentry><raise event="poke"/></onentry>' if poke else '') +
+            '<state id="s01">' + ('<transition event="poke"/>' if poke else '') +
             '<transition event="tick" target="s01">%s</transition>'
             '<transition event="m1 m2 m3 m4 m5" target="s01"><log label="gotm"/></transition>'
             '<transition event="done.invoke.%s" target="s01"><log label="gotdone"/></transition>'
@@ -553,13 +556,16 @@ def run(c):
                 for scr, tag in (('s,w:15,e:tick,s,w:15,e:tick,s,w:15,e:leave,s,e:back,s,w:15,e:tick,s,w:15,e:leave,s,e:end,s', 'react'),
                                  ('s,w:15,e:tick,s,w:15,e:tick,s,w:15,e:end,s', 'endin'),
                                  ('s,e:leave,s,e:end,s', 'fastleave')):
-                    name = 'u_%s_%s_%s' % (shape_name(shape), fwd, tag)
+                  for poke in (False, True):
+                    if poke and tag == 'fastleave':
+                        continue
+                    name = 'u_%s_%s_%s%s' % (shape_name(shape), fwd, tag, '_poke' if poke else '')
                     cx = child_chart(shape, 'tick' if fwd == 'auto' else 'go')
-                    px = parent_chart(cx, name + '_child.scxml', False, fwd, True)
+                    px = parent_chart(cx, name + '_child.scxml', False, fwd, True, poke=poke)
                     pf = write_pair(name, px, cx)
                     run_lines_l.append(rline(eng, pf, scr, []))
                     run_keys.append(dict(kind='free', shape=shape, engine=eng, fwd=fwd, finalize=True, content=False, file=pf,
-                                         script=scr, items=[], tag=tag))
+                                         script=scr, items=[], tag=tag + ('+poke' if poke else '')))
     if not quick:
         # random driver scripts on random pairs, and 2-level nesting
         evs = ['tick', 'tick', 'leave', 'back', 'self', 'tick']
